@@ -1,9 +1,10 @@
 import JunoModel.Common.Proto
 import JunoModel.C16.Model
+import JunoModel.C16.ModelMig
 /-! Line-protocol driver for the C16 model (`lake build c16drv`).
 
 State-changing requests (answer = `Out` of the model step):
-  cfg <retained> <l2PerPrune> <minAge 0|1> <legacy 0|1> <fixed 0|1>   reset to the empty node with this configuration
+  cfg <retained> <l2PerPrune> <minAge 0|1> <legacy 0|1> <fixed 0|1> <migSkipsMissing 0|1> <migZeroNoop 0|1>   reset to the empty node with this configuration
   bulk <k>           the node after k stores on the empty database, in closed form
   agg <w>            is the aggregated bloom filter of window w persisted (1/0)
   store | revert | writel1 <n> | evl1 <n> | evl2 <n> <within 0|1> | flush <k> | finish | fail | crash <seed 0|1> | sample <v>
@@ -77,11 +78,12 @@ def listGet (l : List Nat) (i : Nat) : Nat := (l[i]?).getD 0
 
 def stepLine (d : DSt) (line : String) : DSt × String :=
   match words line with
-  | ["cfg", r, l, m, lg, fx] =>
-    match u64? r, u64? l, bool? m, bool? lg, bool? fx with
-    | some r, some l, some m, some lg, some fx =>
-      ({ cfg := { retained := r, l2PerPrune := l, minAge := m, legacy := lg, fixed := fx }, st := St.init }, "ok")
-    | _, _, _, _, _ => (d, "bad-op")
+  | ["cfg", r, l, m, lg, fx, ms, mz] =>
+    match u64? r, u64? l, bool? m, bool? lg, bool? fx, bool? ms, bool? mz with
+    | some r, some l, some m, some lg, some fx, some ms, some mz =>
+      ({ cfg := { retained := r, l2PerPrune := l, minAge := m, legacy := lg, fixed := fx,
+                  migSkipsMissing := ms, migZeroNoop := mz }, st := St.init }, "ok")
+    | _, _, _, _, _, _, _ => (d, "bad-op")
   | ["bulk", k] =>
     -- the node after k stores on the empty database (Props.bulk_is_k_stores), in closed form
     match nat? k with
@@ -91,6 +93,18 @@ def stepLine (d : DSt) (line : String) : DSt × String :=
     match nat? w with
     | some w => (d, if d.st.db.agg w then "1" else "0")
     | none => (d, "bad-op")
+  | [k, kind, addr, slot, blk] =>
+    -- hkey / skey <storage|nonce|classHash> <addr hex32> <slot hex32 | -> <block decimal>: the history / scratch key bytes
+    let kind? : Option Mig.HKind := match kind with
+      | "storage" => some .storage | "nonce" => some .nonce | "classHash" => some .classHash | _ => none
+    match kind?, hexToBytes? addr, hexToBytes? slot, nat? blk with
+    | some kd, some a, some sl, some b =>
+      let be : List UInt8 := (List.range 8).map fun i => UInt8.ofNat ((b >>> (8 * (7 - i))) % 256)
+      let key : Mig.HKey := ⟨kd, a, sl, be⟩
+      if k == "hkey" then (d, bytesToHex (Mig.historyKey key))
+      else if k == "skey" then (d, bytesToHex (Mig.scratchKey key))
+      else (d, "bad-op")
+    | _, _, _, _ => (d, "bad-op")
   | ["store"] => doOp d .store
   | ["revert"] => doOp d .revert
   | ["writel1", n] => match u64? n with | some n => doOp d (.writeL1 n) | none => (d, "bad-op")
@@ -103,6 +117,12 @@ def stepLine (d : DSt) (line : String) : DSt × String :=
   | ["finish"] => doOp d .finish
   | ["fail"] => doOp d .fail
   | ["crash", s] => match bool? s with | some s => doOp d (.crash s) | none => (d, "bad-op")
+  | ["migrate", mf, u] =>
+    match bool? u with
+    | none => (d, "bad-op")
+    | some u =>
+      if mf == "-" then doOp d (.migrate none u)
+      else match u64? mf with | some f => doOp d (.migrate (some f) u) | none => (d, "bad-op")
   | ["sample", v] => match u64? v with | some v => doOp d (.sample v) | none => (d, "bad-op")
   | ["q", q, n] =>
     match q? q, nat? n with
